@@ -9,7 +9,7 @@ from .engine import VERIF_DIR
 COMPONENTS = dict(
     real=["reamber (from /repo working tree)", "pandas", "numpy", "PyYAML", "unidecode",
           "CPython io.BufferedReader/Writer/Random, io.TextIOWrapper, codecs.StreamReaderWriter"],
-    stub=["raw device (SimRaw: short counts, EIO/ENOSPC/close errors)", "file namespace (SimFS)",
+    stub=["raw device (SimRaw: short counts, EIO/ENOSPC/close errors, EACCES at open)", "file namespace (SimFS)",
           "platform defaults (encoding, linesep)", "the user program (seeded op generator)"],
     reference=["plain-row list/stack/convert/rate model (sim/ops/*)", "format interpreters sim/ref/{osu,sm,bms,qua,ojn}.py"],
 )
